@@ -152,4 +152,4 @@ def gen_case(draw, max_blocks=4):
 def sources(tier):
     if tier == "quick":
         return [Hyp("grammar", gen_case(), 400, shards=8)]
-    return [Hyp("grammar", gen_case(), 10000, shards=16)]
+    return [Hyp("grammar", gen_case(), 8000, shards=16)]
